@@ -351,12 +351,26 @@ pub fn scope(name: &str) -> Scope {
         // disjointness test gives up after 100 characters), next to those classes
         "HI" => Scope::new("HI", &["z", "\u{e9}", ".", "[^a]", "\\S", "[x-z]", "\\P{Lu}"], &["*", "+", "?", "{1,2}", "*?"], false, &['z', '\u{e9}', 'x']),
         // top-level alternation with an empty last / first branch
+        // the same region of the alphabet with counted quantifiers from zero and capturing
+        // groups (rewrite laws r{0,m} and capturing -> non-capturing)
+        "HIQ" => Scope::new("HIQ", &["z", "\u{e9}", ".", "[^a]", "\\S"], &["{0,2}", "{1,2}", "*", "?"], true, &['z', '\u{e9}', 'x']),
         "K0E" => scope("K0").wrapped("K0E", "", "|", &['a', 'b', '\n']),
         "K0S" => scope("K0").wrapped("K0S", "|", "", &['a', 'b', '\n']),
         // small alternation scope for the rewrite laws
         "ALTS" => Scope::new("ALTS", &["a", "b", "(?:a|$)", "(?:^|a)", "(?:a|b?)", "(?:ab)"], &["*", "+", "?", "{1,2}", "{0,2}"], false, &['a', 'b']),
         // a repeat before a group whose body starts with an optional variable-length term
         "SEQO" => Scope::new("SEQO", &["a", "[ab]", "(?:(?:bb|b)?a)", "(?:b?a)"], &["*", "+", "?", "{1,2}"], false, &['a', 'b']),
+        // back-references to a third group captured on abandoned paths, after two groups
+        // that always participate (possibly empty); alternations without groups before
+        // optional groups
+        "BR3B" => Scope::new(
+            "BR3B",
+            &["a", "c", "\\3", "(b)", "(b)??", "(b)?", "(?:a(b)c|ab)", "(?:(b)|a)", "(?:a|ab)", "(?:c|(b))", "(b)??\\3"],
+            &[],
+            false,
+            &['a', 'b', 'c'],
+        ),
+        "BR3" => scope("BR3B").wrapped("BR3", "(x?)(y?)", "", &['a', 'b', 'c']),
         // alternatives that end at the same position several times before one that ends elsewhere
         "DUP" => Scope::new(
             "DUP",
@@ -369,6 +383,10 @@ pub fn scope(name: &str) -> Scope {
         "LP" => Scope::new("LP", &["a", "b", "aa", "ab", "aab", "aba", "abab"], &["*", "?", "+"], false, &['a', 'b']),
         // group nesting: capturing groups around / beside possibly-empty terms
         "NEST" => Scope::new("NEST", &["a", "b?", "c*"], &[], true, &['a', 'b', 'c']),
+        // a non-capturing group between two capturing levels, possibly-empty inner groups
+        "NESTN" => Scope::new("NESTN", &["a", "(b*)", "(?:(b*))", "(?:(b?)c?)", "(?:a|(b*))", "(?:(c?))"], &[], true, &['a', 'b', 'c']),
+        // terms that vanish ({0}) or are zero-width under a quantifier, grouped and alternated
+        "Z" => Scope::new("Z", &["a", "b", "^", "$"], &["{0}", "{0,0}", "*", "?", "{0}?"], true, &['a', 'b']),
         // case
         "CI" => Scope::new(
             "CI",
@@ -385,6 +403,9 @@ pub fn scope(name: &str) -> Scope {
             true,
             &['a', '\n', '\r'],
         ),
+        // anchors with non-ASCII and supplementary-plane characters in the input
+        // (offsets are in characters, not bytes or UTF-16 units)
+        "ANU" => Scope::new("ANU", &["a", ".", "^", "$", "\\n", "[^a]"], &["*", "+", "?"], false, &['a', '\n', '\u{e9}', '\u{1F600}']),
         // astral / combining
         "U" => Scope::new(
             "U",
@@ -413,6 +434,21 @@ pub const T_CORE: [&str; 20] = [
 pub const T_UNI: [&str; 20] = [
     "\u{e9}", "\u{1F600}", "\u{301}", "\u{0}", "\u{85}", "\u{2028}", "\u{FFFF}", "\u{10FFFF}", "\u{130}", "\u{df}", "[", "]", "-", "\\", "(", ")", "^", "*", "{2}", "|",
 ];
+
+/// Counted-quantifier syntax: every truncation and permutation of `a{1,2}` (also
+/// under flag x, with blanks).
+pub const T_QUANT: [&str; 10] = ["a", "{", "}", ",", "1", "2", "0", "?", " ", ")"];
+
+/// Group syntax around back-references: capturing and non-capturing groups,
+/// references to closed, open and later groups.
+pub const T_GROUP: [&str; 8] = ["(", "(?:", ")", "a", "\\1", "\\2", "|", "*"];
+
+/// Class syntax after an escaped backslash (whitespace preprocessor of flag x).
+pub const T_XCLS: [&str; 11] = ["a", "b", "\\\\", "\\[", "\\]", "[", "]", "[^", "-[", "(", ")"];
+
+/// Category and block escapes inside and outside character groups (whitespace
+/// between the braces is never layout).
+pub const T_XESC: [&str; 11] = ["[", "]", "[^", "-[", "\\p{L}", "\\P{Lu}", "\\p{IsGreek}", "a", "\\d", "(", ")"];
 
 pub fn tokens_to_string(alphabet: &[&str], digits: &[usize]) -> String {
     let mut s = String::new();
